@@ -38,6 +38,9 @@ def cases(tier, seed):
                     'wk': ['real', 'int'][t % 2], 'diag': False, 'ms': int(rs.randint(1 << 30)), 'scale': 1e-10})
         out.append({'kind': 'util', 'n': int(rs.randint(3, 10)), 'sym': bool(t % 2), 'dens': 1.0,
                     'wk': ['signed', 'real'][t % 2], 'diag': False, 'ms': int(rs.randint(1 << 30)), 'scale': 1e-10})
+    for t in range(30 if thorough else 10):  # nearly symmetric but beyond np.allclose's 1e-5 relative tolerance: must be treated as directed
+        out.append({'kind': 'prop', 'n': int(rs.randint(3, 10)), 'sym': True, 'dens': float(rs.choice([.6, 1.0])), 'wk': 'real',
+                    'diag': False, 'ms': int(rs.randint(1 << 30)), 'nearsym': float(rs.choice([1e-3, 3e-2]))})
     for n in range(2, 17 if thorough else 13):  # dense supports: the rounding boundary decides the count
         for sym in (False, True):
             for wk in ('real', 'int'):
@@ -72,6 +75,8 @@ def make(case):
         W[np.arange(n), np.arange(n)] = rs.randint(1, 5, size=n)
     else:
         np.fill_diagonal(W, 0)
+    if case.get('nearsym'):
+        W = W * (1.0 + case['nearsym'] * np.triu(rs.rand(n, n), 1))   # perturb the upper triangle only
     return W * case.get('scale', 1.0)
 
 
